@@ -195,7 +195,14 @@ def run_check(spec, tier, seed):
     mismatches = []
     bad_ops = 0
     pred_evals = 0
-    batch_res = spec.batch_predicate(cases, impl, ctx) if spec.batch_predicate and hdir else None
+    try:
+        batch_res = spec.batch_predicate(cases, impl, ctx) if spec.batch_predicate and hdir else None
+    except Exception as e:  # noqa: the predicate machinery itself failed on this tree's output: report, never crash
+        import traceback
+        batch_res = [None] * len(cases)
+        p = write_replay(prop, seed, tier, 940, "correspondence-break", [], [], [],
+                         "the predicate could not be evaluated on the implementation's output: %r\n%s" % (e, traceback.format_exc()[-1500:]))
+        violations.append((p, " no-failing-input-found"))
     for ci, (c, m, im) in enumerate(zip(cases, model, impl)):
         if any(l == "bad-op" for l in m) and not c.meta.get("lenient"):
             bad_ops += 1
@@ -243,6 +250,8 @@ def run_check(spec, tier, seed):
             cc = Case("s", ops, meta=c.meta)
             if any(l.startswith("CRASH:") for l in ii):
                 return True
+            if crashed:
+                return False      # the original case failed by crashing: a shorter script counts only if it still crashes
             if view(cc, mm) == view(cc, ii) and not (spec.predicate and failing):
                 return False
             if spec.predicate and failing and not crashed:
@@ -252,7 +261,7 @@ def run_check(spec, tier, seed):
                     return False
             return True
         ops = c.ops
-        if len(ops) > 1 and not c.meta.get("noshrink"):
+        if len(ops) > 1 and not c.meta.get("noshrink") and not c.meta.get("pred_timeout"):
             try:
                 ops = shrink(c, still)
             except Exception:  # noqa
@@ -265,6 +274,10 @@ def run_check(spec, tier, seed):
             known_hits.append((hit[0], sig))
             continue
         note = "first differing case of %d; tags=%s" % (len(mismatches), ",".join(c.tags))
+        if c.meta.get("pred_timeout"):
+            note += ("\nthe model's predicate could not be evaluated on the implementation's output of this case within the time limit "
+                     "(the output is far outside the shape of any model output: e.g. frames tiled by thousands of empty messages); "
+                     "implementation and model differ on it")
         if not failing:
             note += "\nmodel and implementation differ on this input; the property predicate still holds on the implementation's output (or no predicate applies), so no failing input was found: the proof no longer covers the code (correspondence stream of %s)" % prop
         p = write_replay(prop, seed, tier, idx + 1, kind, ops, mm, ii, note)
